@@ -63,6 +63,15 @@ def eval_call(ex, node, st):
         raise OutsideSubset('call of %s (line %s)' % (name, ex.cur_line))
 
     if not isinstance(func, ast.Attribute):
+        # a computed callee (e.g. self._workers[state](things)) can be given a
+        # handler by its source text in the spec's `calls`
+        try:
+            text = ast.unparse(func)
+        except Exception:
+            text = None
+        tgt = ex.spec.get('calls', {}).get(text)
+        if callable(tgt):
+            return tgt(ex, node, st)
         raise OutsideSubset('call of computed function')
 
     # ---- super().method(...) -------------------------------------------------
